@@ -16,9 +16,16 @@ spec->code: TLC prints every history (<= MaxDepth operations) with the exact
             (purity) after every step.  Scenarios with an empty redshift bin
             (zero=b) and single-patch containers put NaN into the real data
             containers: == must stay reflexive / structural / symmetric there.
+            Index selections come as Python ints AND as numpy integer scalars
+            (sel.t = "npint": np.int64/int32/intp/element of np.arange) on every
+            level; the selection must equal the model object and the one made
+            with the Python int.  Sums (+, sum()) of NormalisedCounts / CorrFunc
+            with another measurement on the same bins and patches (variants
+            "sw", "othersw": other sums of weights) must be rejected.
 deviations: the code as found (A1 MulCountAttr, A2 FancyPatchIndex, A3
-            AddPassesClosed, AddDropsMembers, SwNdimChain): TLC must produce a
-            counterexample for each; it is replayed on the real code.
+            AddPassesClosed, AddDropsMembers, SwNdimChain, NumpyIndexOnCounts;
+            hypothetical: AddIgnoresWeights): TLC must produce a counterexample
+            for each; it is replayed on the real code.
 """
 
 from __future__ import annotations
@@ -36,7 +43,17 @@ S = C.scenario
 C17_OPS = ["Add", "Sub", "AddVar", "SubVar", "RAdd", "Mul", "Eq", "EqVar", "IsCompat", "IsCompatVar", "Bins", "Patches",
            "IterBins", "IterPatches", "PatchSum", "Sample", "GetArray", "Construct"]
 REQUIRED_PAIRS = [("GetArray", "Sample"), ("GetArray", "PatchSum"), ("GetArray", "Eq"), ("Sample", "Eq"), ("Sample", "EqVar"),
-                  ("PatchSum", "Eq"), ("Sample", "Bins"), ("Bins", "Sample"), ("Bins", "GetArray"), ("Patches", "GetArray")]
+                  ("PatchSum", "Eq"), ("Sample", "Bins"), ("Bins", "Sample"), ("Bins", "GetArray"), ("Patches", "GetArray"),
+                  ("Sample", "Bins:npint"), ("PatchSum", "Bins:npint")]
+# (class, operation, input class, prescribed outcome) that must be among the replayed steps: numpy integer indices on
+# every level, and sums of pair counts that are normalised by different sums of weights
+REQUIRED_CLASSES = [(c, "bins", "npint", "val") for c in ("PatchedCounts", "PatchedSumWeights", "NormalisedCounts", "CorrFunc",
+                                                           "SampledData", "CorrData")] + \
+                   [(c, "bins", "npint_out_of_range", "rej") for c in ("PatchedCounts", "CorrFunc", "SampledData", "CorrData")] + \
+                   [(c, "patches", "npint", "val") for c in ("PatchedCounts", "PatchedSumWeights", "NormalisedCounts", "CorrFunc")] + \
+                   [(c, "add", v, "rej") for c in ("NormalisedCounts", "CorrFunc") for v in ("sw", "othersw")] + \
+                   [("NormalisedCounts", "radd", "sum_othersw", "rej"), ("NormalisedCounts", "radd", "sum_compatible", "val"),
+                    ("PatchedCounts", "radd", "sum_compatible", "val")]
 
 
 def base_scenarios():
@@ -82,6 +99,8 @@ DEV_RUNS = {
     "AddPassesClosed": (S("CD", 2, 3, seed=1), ["Add", "Sub", "AddVar", "SubVar"], ["AcceptIffValid"]),
     "AddDropsMembers": (S("CF", 2, 3, mem=("dr",), seed=1), ["AddVar"], ["AcceptIffValid"]),
     "SwNdimChain": (S("SW", 2, 3, auto=True, seed=1), ["Construct"], ["AcceptIffValid"]),
+    "NumpyIndexOnCounts": (S("NC", 2, 3, seed=1), ["Bins", "Patches"], ["AcceptIffValid"]),
+    "AddIgnoresWeights": (S("NC", 2, 3, seed=1), ["AddVar", "RAdd"], ["AcceptIffValid"]),
 }
 
 
@@ -154,6 +173,7 @@ def run(ctx) -> None:
     # B. replay
     total_ops = {}
     total_pairs: dict = {}
+    total_classes: dict = {}
     eq_on_undefined = 0
     for label in [k for k in results if k.startswith("emit")]:
         res = results[label]
@@ -167,6 +187,8 @@ def run(ctx) -> None:
             total_ops[k] = total_ops.get(k, 0) + n
         for k, n in rp.pairs_seen.items():
             total_pairs[k] = total_pairs.get(k, 0) + n
+        for k, n in rp.classes_seen.items():
+            total_classes[k] = total_classes.get(k, 0) + n
         eq_on_undefined += rp.eq_on_undefined
         ctx.extra.setdefault("replay", {})[label] = dict(scenarios=len(inits), steps=len(steps), executed=rp.replayed,
                                                           histories=rp.histories, continued_with_model_object=rp.repaired,
@@ -181,6 +203,10 @@ def run(ctx) -> None:
     ctx.extra["operations_replayed"] = total_ops
     for pair in REQUIRED_PAIRS:
         ctx.require(total_pairs.get(pair, 0) > 0, f"no history with {pair[0]} followed by {pair[1]} was replayed on the real code")
+    for ck in REQUIRED_CLASSES:
+        ctx.require(total_classes.get(ck, 0) > 0, f"no replayed step of class {ck}")
+    ctx.extra["numpy_integer_selections_replayed"] = sum(n for k, n in total_classes.items() if k[2].startswith("npint"))
+    ctx.extra["sums_with_other_normalisation_replayed"] = sum(n for k, n in total_classes.items() if k[2].endswith(("othersw", "sw")))
     ctx.require(eq_on_undefined >= 20, f"== with a prescribed result was executed on only {eq_on_undefined} real containers holding NaN")
     ctx.extra["eq_executed_on_containers_holding_nan"] = eq_on_undefined
     ctx.extra["compositions_replayed"] = {f"{a}->{b}": n for (a, b), n in sorted(total_pairs.items())}
@@ -200,7 +226,7 @@ def run(ctx) -> None:
         ctx.require(len(ideal) == 1, f"counterexample of {dev} not found among the ideal histories")
         sk = C.scen_key(sc)
         root = world.build(inits[sk][1])
-        out = C.execute(world, hist[-1], dev_res, [root]) if hist[-1]["op"] != "Construct" else None
+        out = C.execute(world, hist[-1], dev_res, [root], salt=len(hist)) if hist[-1]["op"] != "Construct" else None
         if out is None:
             try:
                 out = ("val", C.construct(world, inits[sk][1], hist[-1]["var"]))
@@ -229,7 +255,7 @@ def run(ctx) -> None:
             continue
         scen, v0 = inits[sk]
         root = world.build(v0)
-        out = C.execute(world, hist[-1], r, [root])
+        out = C.execute(world, hist[-1], r, [root], salt=len(hist))
         good_log, bad_log = [], []
         C.Judge(ctx, world, ctx.prop, sampling_is_foreign=True, collect=good_log).judge(scen, hist, r, [v0], out)
         C.Judge(ctx, world, ctx.prop, sampling_is_foreign=False, collect=bad_log).judge(scen, hist, bad, [v0], out)
